@@ -293,6 +293,12 @@ def run_case(case):
     return out
   s_out = scale_of(np.cumsum(res, axis=0), res, cfg["omin"], cfg["omax"])
   tol = TOL_W * s_out
+  # The clamp is reached inside the Dykstra loop by spreading
+  # (bound - bias - sum(heights)) over the heights in float32, i.e. with a
+  # rounding error of a few ulp32 of the INPUT kernel per row; the final clip
+  # only guarantees "<= bound".
+  clamp_tol = max(tol, 8.0 * rows * float(np.spacing(np.float32(
+      scale_of(np.sum(np.abs(k64), axis=0))))))
   exempt_conv = cfg["conv"] != 0 and has_bounds and cfg["mono"] == 0
   exempt_clamp = cfg["conv"] != 0
   worst = 0.0
@@ -313,9 +319,9 @@ def run_case(case):
                   "%s" % (m["conv"], tol, u, case["entry"]), kind="conv", **sig)
     if (cfg["clamp_min"] or cfg["clamp_max"]) and exempt_clamp:
       out.label("exempt:clamp+convexity")
-    elif m["clamp"] > tol:
+    elif m["clamp"] > clamp_tol:
       out.violate("clamped bound missed by %.3g (tolerance %.3g) in unit %d "
-                  "via %s" % (m["clamp"], tol, u, case["entry"]),
+                  "via %s" % (m["clamp"], clamp_tol, u, case["entry"]),
                   kind="clamp", **sig)
     worst = max(worst, m["bounds"] / s_out, m["conv"] / s_out)
   out.info["worst_violation_over_S"] = worst
